@@ -713,26 +713,27 @@ C08Step(p, op, p2, hd) ==
 -----------------------------------------------------------------------------
 (* Properties checked by TLC on the bounded model. *)
 
+Stepped   == Len(log') = Len(log) + 1      \* an op was evaluated in this step
 LastEntry == log'[Len(log')]
 
 C07_Issue ==
-    [][(log' # log /\ LastEntry.op.k \in {"i.assign", "i.label", "i.edit", "i.lifecycle",
+    [][(Stepped /\ LastEntry.op.k \in {"i.assign", "i.label", "i.edit", "i.lifecycle",
                                            "i.comment", "i.cedit", "i.credact", "i.creact"})
            => StmtIssue(issue, LastEntry.op, issue')]_vars
 C07_Patch ==
-    [][(log' # log /\ patch.author # 0 /\ LastEntry.op.k # "push")
+    [][(Stepped /\ patch.author # 0 /\ LastEntry.op.k # "push")
            => StmtPatch(patch, LastEntry.op, patch')]_vars
 C07_PatchExtra ==
-    [][(log' # log /\ patch.author # 0 /\ LastEntry.op.k # "push")
+    [][(Stepped /\ patch.author # 0 /\ LastEntry.op.k # "push")
            => ExtraPatch(patch, LastEntry.op, patch')]_vars
 C08_Step ==
-    [][(log' # log /\ patch.author # 0 /\ LastEntry.op.k # "push")
+    [][(Stepped /\ patch.author # 0 /\ LastEntry.op.k # "push")
            => C08Step(patch, LastEntry.op, patch', heads)]_vars
 \* rejected ops leave the object exactly as it was
 RejectedNoEffect ==
-    [][(log' # log /\ LastEntry.res = "rejected") => (issue' = issue /\ patch' = patch)]_vars
+    [][(Stepped /\ LastEntry.res = "rejected") => (issue' = issue /\ patch' = patch)]_vars
 \* only the environment moves branches; objects do not appear or disappear
-Frame == [][(heads' # heads => LastEntry.op.k = "push")]_vars
+Frame == [][(heads' # heads => (Stepped /\ LastEntry.op.k = "push"))]_vars
 
 \* State invariants
 TypeOK ==
